@@ -270,11 +270,6 @@ Lemma lift_r_ok x r : lift_r x = COk r -> x = ROk r.
 Proof. destruct x; cbn [lift_r]; [|discriminate|discriminate]. intros [= <-]. reflexivity. Qed.
 
 (* ---- an insertion into a block that was itself just inserted stays one block ---- *)
-Lemma give_ending_app eol a b : b <> [] -> give_ending_to_last eol (a ++ b) = a ++ give_ending_to_last eol b.
-Proof.
-  intros Hb. destruct (list_snoc_cases b) as [->|(p & x & ->)]; [contradiction|].
-  rewrite app_assoc, !give_ending_snoc, app_assoc. reflexivity.
-Qed.
 
 Lemma insert_into_block st k texts G blk post ls' :
   zlen G < k <= zlen G + zlen blk -> insert st k texts (G ++ blk ++ post) = Ok ls' ->
